@@ -12,9 +12,13 @@
 (* Tag[k]+Delta; the RFC 4034 checksum can carry, then it is Tag[k]+Delta+1*)
 (* and the code cannot find the anchor it belongs to).                     *)
 (*                                                                         *)
-(* Time: every stored timestamp is kept as an AGE in days, capped at       *)
-(* AgeCap (> 90, so both hold-down comparisons stay exact); Begin(d) ages  *)
-(* everything at rest by d.  `now` is documentation only (hidden by View). *)
+(* Time: a stored FirstSeen is kept as an AGE in whole days, capped at     *)
+(* AgeCap (> 90, so both hold-down comparisons stay exact), and only in    *)
+(* the states whose FirstSeen is ever compared (AddPend, Missing; 0        *)
+(* elsewhere).  Begin(d) ages everything at rest by d.  The real clock     *)
+(* stands a positive instant past every whole-day step, so the code's      *)
+(* `time.Since(FirstSeen) > 720h` reads `age >= 30` here (90 likewise).    *)
+(* `now` and nCrash are history only (hidden by View).                     *)
 (*                                                                         *)
 (* Environment: Begin(d, rf) lets d days pass, optionally breaks a file    *)
 (* for reading and starts one AutoTA run; Fetch(ok, z) is the moment the   *)
@@ -45,6 +49,22 @@
 (* Timer-starting events count at the fetch; timer-resetting events count  *)
 (* only when the state file write of that run succeeded (the weakest       *)
 (* reading of "accepted refresh": one whose outcome was recorded).         *)
+(*                                                                         *)
+(* What TLC found on this model and the replay reproduced on the code      *)
+(* (Hyp_*.cfg; the clean MC_*/Sim_* configurations exclude the triggering  *)
+(* move through the Allow* / ReadFaultKinds / Tag constants):              *)
+(*  H1 presence is by tag: a pending key absent from an accepted refresh   *)
+(*     that carries another key with its tag still completes its hold-down *)
+(*  H2 RevTag[k] = Tag[k]+Delta+1 (checksum carry): the revocation is      *)
+(*     never recognised                                                    *)
+(*  H3 a DNSKEY sharing the revoked key's tag later in the RRset masks     *)
+(*     the revocation                                                      *)
+(*  H4 tombstone file unreadable (open error): run continues with none     *)
+(*     and overwrites the store; a configured revoked key is trusted again *)
+(*  H5 both writes fail on a new revocation: fail closed, then the next    *)
+(*     refresh has forgotten the revocation                                *)
+(*  H7 tombstone write failed, then the state file (sole record) is        *)
+(*     undecodable: the revoked configured key is trusted again            *)
 (***************************************************************************)
 EXTENDS Integers, FiniteSets, Sequences, TLC
 
